@@ -23,6 +23,14 @@ def run(ctx):
     d = vlib.drive(ctx, exe, 'window')
     wsum = json.load(open(os.path.join(d, 'summary.json')))
     execcommon.judge(ctx, exe, 'window', os.path.join(d, 'window.ndjson'), 'C03', 'c03')
+    # the windows themselves against a pinned record (spec/pinned_windows.json, the pinned tree's metadata): the property is
+    # relative to each lint's own effective date, so a lint whose window moved is not a violation - it is reported as drift
+    pin = json.load(open(os.path.join(vlib.VERIF, 'spec', 'pinned_windows.json')))
+    for ln in open(os.path.join(d, 'window.ndjson')).readlines()[:3]:
+        m = json.loads(ln)
+        for i, n in enumerate(m['names']):
+            if n in pin and (pin[n]['eff'] != m['eff'][i] or pin[n]['ineff'] != m['ineff'][i]):
+                ctx.drift.append('the window of %s moved: pinned [%s, %s), now [%s, %s)' % (n, pin[n]['eff'], pin[n]['ineff'], m['eff'][i], m['ineff'][i]))
     # the plain corpus too (objects as dated)
     d2 = vlib.drive(ctx, exe, 'sweep')
     execcommon.judge(ctx, exe, 'sweep', os.path.join(d2, 'exec.ndjson'), 'C03', 'c03s')
